@@ -43,6 +43,11 @@ def gen(rng, tier):
                       (c06, lambda c: c.line.split(" ")[0] in ("sign", "sign_ph", "verify")),
                       (c13, lambda c: True)):
         got = [c for c in mod.gen(rng, sub) if keep(c)]
+        for c in got:
+            # C18 is about independence of the build / backend / container; whether libsodium would have REFUSED a small-order peer
+            # key where dryoc computes a key (open finding F17) is C05's matter and is judged there
+            if c.line.startswith("precalc "):
+                c.meta["no_sodium"] = True
         if tier == "quick" and len(got) > 1500:
             got = got[:: len(got) // 1500 + 1]
         cs += got
